@@ -11,7 +11,7 @@ LEVEL = 'fault_enumeration'
 RULE = ('case = (stream bytes incl. sentinel tail, Content-Length below/equal/above the bytes available, buffer = '
         'max_memfile_size, read-fragmentation pattern = caps for successive read() calls, entry point '
         '_body_read | Request.body through WSGI read twice, content type none / octet-stream / JSON / urlencoded / multipart with a well-formed body whose closing delimiter '
-        'is followed by an epilogue, max_body_size unset, >= Content-Length incl. equal, or below it (413 expected, the read audit still applies); wsgi.input = fragmenting stream, a real seekable stream that stands behind the bytes of an earlier request, or an unbuffered io.RawIOBase stream (readinto with short reads) that holds more than the declared length; between the two reads of request.body the handler may re-assign CONTENT_TYPE / a re-spelled CONTENT_LENGTH / a header / the query string through request[...]; declared lengths up to 2^31 with an early end of stream; the wsgi.input_terminated flag set or not). Hypothesis-generated plus exhaustive enumeration of all '
+        'is followed by an epilogue, max_body_size unset, >= Content-Length incl. equal, or below it (413 expected, the read audit still applies); wsgi.input = fragmenting stream, a real seekable stream that stands behind the bytes of an earlier request, or an unbuffered io.RawIOBase stream (readinto with short reads) that holds more than the declared length; between the two reads of request.body the handler may re-assign CONTENT_TYPE / a re-spelled CONTENT_LENGTH / a header / the query string through request[...]; declared lengths up to 2^31 with an early end of stream; the wsgi.input_terminated flag set or not; Content-Length spelled with leading zeros). Plus two bodies read concurrently on two threads (readinto and read streams), every single-preemption schedule. Hypothesis-generated plus exhaustive enumeration of all '
         'compositions (cap sequences) of every body length <= 9 for buffers 1..11. Oracle: body == first '
         'min(CL, available) stream bytes; no read(n) asks for more than CL minus bytes already delivered; no '
         'read(-1). Non-trivial = at least one short read happened, or CL != available, or the body spilled to a '
@@ -57,6 +57,8 @@ def _strategy():
                 case['via'] = 'wsgi'
         if stream_kind and case['via'] == 'wsgi':
             case['stream'] = stream_kind
+        if case['via'] == 'wsgi' and huge is None and delta % 5 == 0:
+            case['cl_zeros'] = 1 + delta % 4
         if reassign and case['via'] == 'wsgi' and maxb is None:
             case['reassign'] = reassign
             case['first_read'] = first_read
@@ -117,7 +119,8 @@ def _read_wsgi(case, stream):
     extra = {}
     if case.get('input_terminated') is not None:
         extra['wsgi.input_terminated'] = case['input_terminated']       # a server flag; Content-Length still bounds the body
-    env = make_environ('POST', '/b', stream=stream, content_length=case['cl'], headers=({'Content-Type': case['ctype']} if case.get('ctype') else None), extra=extra)
+    # (Content-Length = 1*DIGIT: leading zeros spell the same number)
+    env = make_environ('POST', '/b', stream=stream, content_length='0' * (case.get('cl_zeros') or 0) + str(case['cl']), headers=({'Content-Type': case['ctype']} if case.get('ctype') else None), extra=extra)
     r = call_app(app, env)
     if r.escaped is not None:
         raise CheckFailure(f'exception escaped: {fmt_exc(r.escaped)}')
@@ -251,6 +254,8 @@ def check_case(ctx, case):
         ctx.count('seekable_stream_positioned_after_earlier_bytes')
     if case.get('reassign'):
         ctx.count('request_key_reassigned_between_two_body_reads')
+    if case.get('cl_zeros'):
+        ctx.count('content_length_spelled_with_leading_zeros')
     if cl >= 2**20:
         ctx.count('declared_length_of_a_megabyte_or_more')
     if case.get('input_terminated'):
@@ -259,6 +264,50 @@ def check_case(ctx, case):
             ctx.count('wsgi_input_terminated_with_content_length_0')
     if short or spilled or cl != len(data):
         ctx.nontrivial(case, sample=case)
+
+
+def check_threaded(ctx, case):
+    """Two Content-Length bodies read at the same time on two threads of one application (streams with readinto(), or plain read()): both arrive
+    byte-exact under every single-preemption schedule of either thread."""
+    import ombott
+    from vlib.sched import Scheduler, BIG
+    from checks.c08_threads import relevant
+    n = case['n']
+    bodies = [bytes((0x41 + (i * 3 + t * 11) % 23) for i in range(n)) for t in (0, 1)]
+
+    def run(schedule):
+        app = ombott.Ombott({'max_memfile_size': case['buf']})
+        got = {}
+
+        @app.route('/b/<t:int>', method='POST')
+        def h(t):
+            got[t] = app.request.body.read()
+            return 'ok'
+
+        def fn(t):
+            def f():
+                stream = RawStream(bodies[t] + b'##', [max(1, case['buf'] // 2)]) if case['stream'] == 'rawio' else FragStream(bodies[t] + b'##', [max(1, case['buf'] // 2)])
+                r = call_app(app, make_environ('POST', '/b/%d' % t, stream=stream, content_length=n))
+                if r.escaped is not None or r.code != 200:
+                    raise CheckFailure(f'thread {t}: {r.status!r} {fmt_exc(r.escaped) if r.escaped else r.errors[-300:]}')
+            return f
+        sc = Scheduler([fn(0), fn(1)], schedule, relevant)
+        sc.run()
+        for e in sc.errors:
+            if e is not None:
+                raise CheckFailure(f'thread raised {fmt_exc(e)[-600:]} under schedule {schedule}')
+        for t in (0, 1):
+            if got.get(t) != bodies[t]:
+                raise CheckFailure(f'two {n}-byte bodies read concurrently ({case["stream"]} streams, buffer {case["buf"]}) under schedule {schedule}: thread {t} got '
+                                   f'{(got.get(t) or b"")[:40]!r}..., sent {bodies[t][:40]!r}...')
+        ctx.evals += 1
+        ctx.nontrivial('thr:' + repr((case['stream'], n, schedule)))
+        return sc.yields
+    y = run([[0, BIG], [1, BIG]])
+    step = max(1, y[0] // 400)
+    for k in range(0, y[0] + 1, step):
+        run([[0, k], [1, BIG], [0, BIG]])
+    ctx.count('threaded_single_preemption_schedules', len(range(0, y[0] + 1, step)))
 
 
 def compositions(n):
@@ -279,7 +328,7 @@ def compositions(n):
 
 def run(ctx):
     for name, case in load_corpus(ID):
-        ctx.guarded(check_case, case)
+        ctx.guarded(check_threaded if case.get('threaded') else check_case, case)
         ctx.count('corpus')
     # exhaustive small scope: every composition of every length <= N, buffers 1..B (shard 0 only)
     if ctx.shard == 0:
@@ -312,9 +361,20 @@ def run(ctx):
                         ctx.guarded(check_case, {'data': bytes(65 + i % 26 for i in range(40)) + b'##', 'cl': 40, 'buf': buf, 'pattern': [5], 'via': 'wsgi', 'ctype': ct,
                                                  'reassign': ra, 'first_read': first})
         ctx.count('raw_stream_and_reassign_grid')
+        for z in (1, 2, 5):
+            for n_ in (0, 1, 16, 300):
+                for buf in (8, 102400):
+                    for pattern in ([], [1], [7]):
+                        ctx.guarded(check_case, {'data': bytes(65 + i % 26 for i in range(n_)) + b'##', 'cl': n_, 'buf': buf, 'pattern': pattern, 'via': 'wsgi', 'ctype': None, 'cl_zeros': z})
+        ctx.count('leading_zero_grid')
+        for kind in ('rawio', 'frag'):
+            for n_ in (5, 40, 2048):
+                ctx.guarded(check_threaded, {'threaded': True, 'stream': kind, 'n': n_, 'buf': 16 if n_ < 100 else 1024})
     n = 5000 if ctx.tier == 'quick' else 40000
     ctx.hyp(_strategy(), check_case, n)
 
 
 def replay(ctx, case):
+    if case.get('threaded'):
+        return check_threaded(ctx, case)
     check_case(ctx, case)
